@@ -1,4 +1,5 @@
 CONSTANTS
+  ReverseNegatesQueryDistance = FALSE
   ComparePolicy = "nearest_with_pairs"
   TrimGuard = FALSE
 INIT Init
